@@ -11,6 +11,10 @@ Decided:
                 error channel first: at each `return p` either p was tested non-NULL on the path or the size was tested
                 not positive, the remaining paths having ended in mju_error (non-returning); decided for the user-hook
                 path and the default aligned-allocation path separately; both must exist
+  R-FREE-NULL   in user_model.cc, a model/data pointer that the compiler's error path can see (reference parameter, volatile
+                local, member) is set to nullptr right after it is released, before any call that may raise
+  R-PUBLISH-INIT mj_makeRawData-like functions publish a fresh object through their out-parameter only after every field the
+                matching destructor reads has been set
 Not decided: null handling at the call sites of mju_malloc (they rely on its contract: an assumption, not a check);
 leaks / double frees under fault sequences; C++ operator new / containers (std::bad_alloc is not an allocator return);
 platform branches not compiled on this host (_WIN32: _aligned_malloc); third-party code (tinyxml2, qhull, lodepng, glad).
@@ -296,11 +300,134 @@ def mustpass(res, u, raw_funcs):
                 "the default allocator is not confined to the branch where mju_user_malloc is unset")
 
 
+UM = "src/user/user_model.cc"
+DELETERS = ("mj_deleteData", "mj_deleteModel")
+
+
+def free_null(res):
+    """R-FREE-NULL: the compiler's error path (setjmp/longjmp out of mju_error, catch blocks) releases the model/data pointers
+    it can see.  A pointer that an error handler can see (a reference parameter, a `volatile` local, a class member) must
+    therefore not dangle while a call that may raise runs: after mj_deleteData(p) / mj_deleteModel(p) the next thing that
+    happens to p is `p = nullptr` — before any other call."""
+    ir = cfront.load_tu(UM, lang="cxx")
+    res.rule("R-FREE-NULL", "a handler-visible pointer is nulled right after it is released (before any call that may raise)", floor=3)
+    n = 0
+    for d in ir["decls"]:
+        for fn in cir.walk(d):
+            if fn.get("k") not in ("CXXMethodDecl", "FunctionDecl") or cir.body(fn) is None:
+                continue
+            volat = {x.get("n") for x in cir.walk(fn) if x.get("k") == "VarDecl" and "volatile" in (x.get("t") or "")}
+            refs = {p_.get("n") for p_ in cir.params(fn) if (p_.get("t") or "").rstrip().endswith("&")}
+
+            def visible(e):
+                x = cir.strip(e)
+                if x is None:
+                    return False
+                if x.get("k") == "DeclRefExpr":
+                    return (x.get("ref") or {}).get("n") in (volat | refs)
+                if x.get("k") == "MemberExpr":
+                    b = cir.strip(cir.kids(x)[0]) if cir.kids(x) else None
+                    return b is None or b.get("k") == "CXXThisExpr"
+                return False
+
+            def lists(node):
+                if node.get("k") == "CompoundStmt":
+                    yield [c for c in cir.kids(node) if c is not None]
+                for c in cir.kids(node):
+                    if c is not None and c.get("k") != "LambdaExpr":
+                        yield from lists(c)
+            for stmts in lists(cir.body(fn)):
+                for i, st in enumerate(stmts):
+                    x = cir.strip(st)
+                    if not (cir.is_call(x) and cir.callee(x) in DELETERS and cir.args(x) and visible(cir.args(x)[0])):
+                        continue
+                    n += 1
+                    ptxt = cir.text(cir.args(x)[0])
+                    okn, why = False, "nothing follows the release in this block"
+                    for nxt in stmts[i + 1:]:
+                        y = cir.strip(nxt)
+                        if y is not None and y.get("k") in ("BinaryOperator", "CXXOperatorCallExpr") and y.get("op", "=") == "=" and \
+                                cir.text(cir.kids(y)[0 if y.get("k") == "BinaryOperator" else 1]) == ptxt:
+                            rhs = cir.text(cir.kids(y)[-1])
+                            okn = rhs in ("nullptr", "NULL", "0") or not any(cir.is_call(z) for z in cir.walk(cir.kids(y)[-1]))
+                            why = f"`{ptxt}` is next assigned `{rhs[:40]}`, the result of a call that may raise while it still dangles"
+                            break
+                        if any(cir.is_call(z) for z in cir.walk(nxt)):
+                            why = f"`{cir.text(nxt)[:60]}` runs while `{ptxt}` still points to the released object"
+                            break
+                    key = f"{fn.get('n')}:{cir.callee(x)}({ptxt})"
+                    if okn:
+                        res.ok("R-FREE-NULL", key, {"line": x.get("line")})
+                    else:
+                        res.bad("R-FREE-NULL", key, UM, x.get("line"),
+                                f"{fn.get('n')} releases `{ptxt}` (visible to the error path: reference / volatile / member) and does not "
+                                f"null it at once: {why}; if that call raises, the handler releases the same object again")
+    if n == 0:
+        raise AnalysisError(f"{UM}: no release of a handler-visible model/data pointer found")
+
+
+def publish_init(res):
+    """R-PUBLISH-INIT: a constructor-like C function that hands a freshly allocated object back through an out-parameter
+    (`*dest = d`) must do so only when everything the matching destructor reads from the object has been initialised: every
+    store to such a field precedes the publication.  Otherwise a caller whose error handler does not return (the model
+    compiler) releases a half-initialised object after an allocation failure."""
+    from .. import modref, norm
+    u = engine.unit(IO)
+    res.rule("R-PUBLISH-INIT", "an object is published through an out-parameter only after the fields its destructor reads are set", floor=1)
+    pairs = {"mjData": "mj_deleteData", "mjModel": "mj_deleteModel"}
+    n = 0
+    for name, fn0 in u.funcs.items():
+        outs = {p_.get("n"): p_.get("t") for p_ in cir.params(fn0) if (p_.get("t") or "").replace(" ", "").endswith("**")}
+        if not outs:
+            continue
+        fn = norm.canon(u, name, nested=False)
+        order = {id(x): i for i, x in enumerate(cir.walk(fn))}
+        for x in cir.walk(fn):
+            if not (x.get("k") == "BinaryOperator" and x.get("op") == "="):
+                continue
+            l = cir.strip(cir.kids(x)[0])
+            if not (l is not None and l.get("k") == "UnaryOperator" and l.get("op") == "*" and cir.text(cir.kids(l)[0]) in outs):
+                continue
+            r = cir.strip(cir.kids(x)[1])
+            if r is None or r.get("k") != "DeclRefExpr" or cir.text(r) in ("NULL", "0"):
+                continue
+            st = modref._struct_of(outs[cir.text(cir.kids(l)[0])].replace("**", "*"))
+            dtor = u.funcs.get(pairs.get(st, ""))
+            if dtor is None:
+                continue
+            n += 1
+            # everything the destructor (with what it calls, across the engine) reads from the object
+            from .. import callgraph, r_fresh
+            g_ = callgraph.build(reads=True)
+            k_ = g_.find(pairs[st])
+            need = set(r_fresh.summary(g_, k_)[0]) if (k_ is not None and st == "mjData") else \
+                {e["field"] for e in modref.events(dtor, {st}, reads=True) if e["kind"] == "read"}
+            obj = cir.text(r)
+            late = []
+            for e_ in cir.walk(fn):
+                if (e_.get("k") == "BinaryOperator" and e_.get("op") == "=") or e_.get("k") == "CompoundAssignOperator":
+                    rf = modref.root_field(cir.kids(e_)[0])
+                    if rf and rf[3] == obj and rf[1] in need and order[id(e_)] > order[id(x)]:
+                        late.append((rf[1], e_.get("line")))
+            key = f"{name}:*{cir.text(cir.kids(l)[0])}"
+            if late:
+                res.bad("R-PUBLISH-INIT", key, IO, x.get("line"),
+                        f"{name} stores the new object into *{cir.text(cir.kids(l)[0])} (line {x.get('line')}) before it sets "
+                        f"{sorted({f for f, _l in late})[:5]}, which {pairs[st]} reads: if an allocation in between raises and the caller's "
+                        f"handler releases *{cir.text(cir.kids(l)[0])}, the destructor acts on uninitialised fields")
+            else:
+                res.ok("R-PUBLISH-INIT", key, {"destructor_reads": len(need)})
+    if n == 0:
+        raise AnalysisError(f"{IO}: no publication of a fresh object through an out-parameter found")
+
+
 def run(res, tier):
     res.rule("R-WHO-CALLS", "raw allocators referenced only inside the choke point of engine_util_errmem.c", floor=55)
     u, raw_funcs = who_calls(res)
     res.rule("R-MUSTPASS", "mju_malloc: no possibly-NULL return for size > 0 without mju_error", floor=5)
     mustpass(res, u, raw_funcs)
+    free_null(res)
+    publish_init(res)
     res.explanation = (
         "References to raw allocators in the clang AST of all C and C++ translation units of src/engine, src/user, src/xml "
         "and of the src/user, src/xml headers (calls, address-taken, dependent names in templates); caller chains inside "
